@@ -303,3 +303,16 @@ Example C08_master_example :
                   WReply diag (Some EvOnline); prm; WUser; WTimeout; prm] /\
     proj 1 log = [WReq (mkHeader 9 2 (Some 60) (Some 62) (FcRequest FcbFirst RqSrdLow)) []; WTimeout; WIdle].
 Proof. do 3 eexists. split; [vm_compute; reflexivity|]. split; vm_compute; auto. Qed.
+
+(* The wire monitor itself, as ONE predicate: monitor state `ghost_of pre` (a fold over the events so far:
+   last request since start / Offline, "answered by an accepted reply", number of unanswered transmissions,
+   bring-up phase) and the per-event acceptance condition `ev_ok` (DpHistory.v: req_ok for requests -- first /
+   toggle / retransmission / probe / retry-bound clauses --, "Offline only when live and after exactly
+   1+max_retry transmissions" for events, "not exhausted" for idle turns).  It accepts every event of every
+   history; the theorems above are readings of this one. *)
+Theorem C08_wire_monitor_accepts : forall pa a o tr,
+  1 <= p_max_retry pa ->
+  history pa a o tr ->
+  forall pre e post, tr = pre ++ e :: post -> ev_ok pa a o (ghost_of pre) e.
+Proof. exact history_new. Qed.
+Print Assumptions C08_wire_monitor_accepts.
